@@ -11,6 +11,9 @@ checks = {
  "C03": dict(technique="runtime monitoring: generated slice/string programs executed under real /bin/bash, judged by an independent reference interpreter",
    text="Differential runtime monitoring of slice and string operations: all substring index pairs up to length 12, growth/gap-fill for old lengths 0..12, aliasing chains, copy for all length pairs, range forms, plus a random sweep with arbitrary int index expressions.",
    note="Trusted: RefLang interpreter (slices as shared growable vectors), /bin/bash 5.2. Undefined cases (out-of-range, resize while ranging, copy into longer dst) discarded.", ref="§3 C03"),
+ "C11": dict(technique="runtime monitoring: generated token lists rendered to text and fed to the real Tokenize; (type, value, row, column) compared with the generating list, reference lexer and go/scanner as witnesses",
+   text="Generator-based monitor of the real lexer: every vocabulary token alone, all ordered pairs of ~110 class representatives x 9 separator kinds, negative-literal contexts, comment / multi-line-token position cases, random sequences; the oracle is the generating token list with renderer-counted positions, cross-checked by an independent maximal-munch reference lexer and by go/scanner; error cases for unterminated literals and bytes outside the grammar.",
+   note="Trusted: the generating list + reference lexer (cross-checked against go/scanner on Go-compatible text). Float spellings, '-' after '}'/'++'/'--', byte-vs-character columns after non-ASCII text are not asserted.", ref="§3 C11"),
  "C07": dict(technique="runtime monitoring: exhaustive (definition site, use site) table over a block skeleton fed to the real Transpile, verdicts compared with a scope calculator",
    text="Exhaustive table monitor over a 25-site block skeleton: every ordered pair of definition and use site x definition/use kinds, redefinitions, header variables, function definition x call site, break/continue/return/func placement at every site, import-boundary uses at every site, plus fixed scope cells; both targets; expected verdict computed by an independent scope calculator over the block tree.",
    note="Trusted: the scope calculator (rules of the property statement). One skeleton (nesting depth 3); break in a switch outside loops not asserted.", ref="§3 C07"),
